@@ -33,6 +33,16 @@ def run(ctx):
     dsl.verify(ctx, repo, B.registry(), "C01.L4.boot", [B.SAMPLE, B.LOGP], B.harness, expect_covers=B.COVERS, concretise=B.concretise)
     common.adapted_contracts(ctx, repo, "C01.L4")
     ctx.trust(*B.registry().assumed)
+    # the target: the weights use the fused joint computation, the trace records the stand-alone log_p_one - both must be the same function of the tree
+    from contracts import c03_joint as J
+
+    prev = getattr(ctx, "vc_filter", None)
+    ctx.vc_filter = lambda name, kind: "joint." in name
+    try:
+        dsl.verify(ctx, repo, J.joint_registry(), "C01.target", [J.TJ + ".log_p", J.TJ + ".log_p_one", J.TJ + ".compute_both_log_p_and_log_p_one"], J.h_joint,
+                   expect_covers=J.JOINT_COVERS)
+    finally:
+        ctx.vc_filter = prev
     ctx.trust("M-PG (Andrieu, Doucet, Holenstein 2010, Thm 5 with an auxiliary permutation variable): the local conditions L1-L8 imply invariance "
               "of the conditional SMC update; a theorem about Markov kernels, trusted, cross-checked by the exact-kernel oracle (bounded)",
               "L2: every step of _get_constrained_path is under contract (placement as in the conditioned tree, proposal / density / particle of the previous state); that the "
